@@ -284,6 +284,44 @@ func runC01(r *core.Run) {
 			return core.Outcome{Class: fmt.Sprint("len%80=", min(c.Len%80, 2), " ", c.Layout), Nontrivial: c.Len >= 2, Evals: 2}
 		})
 
+	core.Clause(r, "caller-memory", core.Opts{Rule: "Name and Sequence given as adjacent sub-slices of ONE backing buffer (with and without spare capacity behind them, in both orders): Write and MarshalText must leave every byte of the caller's buffer untouched and the round trip must hold; every pair of lengths 0..4 x 4 layouts; non-trivial = all"},
+		func(emit func(c01Len) bool) {
+			for nl := 0; nl <= 4; nl++ {
+				for sl := 0; sl <= 4; sl++ {
+					for _, lay := range []string{"name-then-seq", "seq-then-name", "name-then-seq+spare", "seq-then-name+spare"} {
+						emit(c01Len{nl*10 + sl, lay})
+					}
+				}
+			}
+		},
+		func(c c01Len) core.Outcome {
+			nl, sl := c.Len/10, c.Len%10
+			buf := []byte("NAMESEQUENCE-spare-bytes-follow-here")
+			var name, seq []byte
+			if strings.HasPrefix(c.Layout, "name-then-seq") {
+				name, seq = buf[:nl], buf[nl:nl+sl]
+			} else {
+				seq, name = buf[:sl], buf[sl:sl+nl]
+			}
+			if !strings.HasSuffix(c.Layout, "+spare") {
+				name, seq = name[:len(name):len(name)], seq[:len(seq):len(seq)]
+			}
+			before := bytes.Clone(buf)
+			wantName, wantSeq := bytes.Clone(name), bytes.Clone(seq)
+			f := &fasta.Fasta{Name: name, Sequence: seq}
+			var w bytes.Buffer
+			if p := catch(func() { f.Write(&w); f.MarshalText() }); p != "" {
+				return core.Failf("panic: %s", p)
+			}
+			if !bytes.Equal(buf, before) {
+				return core.Failf("Write/MarshalText modified the caller's memory: buffer %q became %q (name = %q, sequence = %q, layout %s)", before, buf, wantName, wantSeq, c.Layout)
+			}
+			if out := checkFastaRead(w.Bytes(), []faRec{{core.S(wantName), core.S(wantSeq)}}, "write->read with fields sharing a buffer"); out.Fail != "" {
+				return out
+			}
+			return core.Outcome{Class: c.Layout, Nontrivial: true, Evals: 3}
+		})
+
 	marshalHistories(r, "fasta", func() []marshaller {
 		var out []marshaller
 		for _, rc := range []faRec{{"a", "ACGT"}, {"", ""}, {"longer name", core.S(longSeq(170))}, {">", "A"}, {"b", core.S(longSeq(80))}, {"c c", core.S(longSeq(81))}} {
